@@ -65,3 +65,37 @@ Example C17_example :
   let w := run C4EProps.C05.ex_w ops in
   map (obs_trace w) [9; 10; 11] = [[1; 0; 1; 0]; [1; 0; 1; 0]; [1; 0; 0; 0]] /\ summary w true = [488; 380; 108; 0].
 Proof. vm_compute. split; reflexivity. Qed.
+
+(* where the lineage of the accounts recorded before v1.2.0 comes from: the upgrade. On every v1.1.0 store (records keyed by id,
+   pairwise different addresses, any number, any ids) the handler — store migration, then the marking — leaves every recorded
+   account recorded under its address, with its id, as a genesis account exactly when it is on the upgrade's list of genesis
+   accounts, as created from a genesis pool exactly when it is on that list (and not on the first), never as split from a genesis
+   account; and nothing else is recorded *)
+From C4E Require Import UpgradeTraces.
+Theorem C17_upgrade_records_the_documented_lineage :
+  forall old : list (Z * Z), NoDup (map snd old) ->
+  let s := upgrade_traces {| ts_old := old; ts_new := [] |} in
+  (forall i a, In (i, a) old -> aget a (ts_new s) = Some (documented i a)) /\
+  length (ts_new s) = length old /\ ts_old s = [].
+Proof. exact upgrade_records_documented_lineage. Qed.
+Print Assumptions C17_upgrade_records_the_documented_lineage.
+
+(* the order matters: the marking only sees the new layout; before the migration it marks nothing *)
+Theorem C17_marking_before_the_migration_marks_nothing :
+  forall old i a, NoDup (map snd old) -> In (i, a) old ->
+  aget a (ts_new (upgrade_traces_marking_first {| ts_old := old; ts_new := [] |})) =
+  Some {| tr_id := i; tr_addr := a; tr_genesis := false; tr_from_pool := false; tr_from_acct := false |}.
+Proof. exact marking_before_migration_marks_nothing. Qed.
+Print Assumptions C17_marking_before_the_migration_marks_nothing.
+
+(* non-vacuity: a listed genesis account (class 3), a listed pool account (class 101) and an unlisted one *)
+Example C17_upgrade_example :
+  let old := [(0, 1000); (1, 3); (2, 101)] in
+  NoDup (map snd old) /\
+  map (fun a => code_of (aget a (ts_new (upgrade_traces {| ts_old := old; ts_new := [] |})))) [1000; 3; 101]
+    = [[1; 0; 0; 0; 0]; [1; 1; 1; 0; 0]; [1; 2; 0; 1; 0]] /\
+  map (fun a => code_of (aget a (ts_new (upgrade_traces_marking_first {| ts_old := old; ts_new := [] |})))) [1000; 3; 101]
+    = [[1; 0; 0; 0; 0]; [1; 1; 0; 0; 0]; [1; 2; 0; 0; 0]].
+Proof.
+  split; [repeat constructor; cbn; intuition lia|]. vm_compute. split; reflexivity.
+Qed.
